@@ -296,7 +296,7 @@ func TestVerifC04(t *testing.T) {
 	} else {
 		c.Note("port 443 could not be bound (" + err.Error() + "): fallback-to-default-port dials are only seen by the strace observer")
 	}
-	total := c.Share(c.Pick(2400, 50000))
+	total := c.Share(c.Pick(6000, 50000))
 	tag := fmt.Sprintf("s%d", c.R.Shard)
 	for n := 0; n < total; n++ {
 		if c.Past(n) || c.Stop() {
@@ -425,7 +425,7 @@ func TestVerifC04(t *testing.T) {
 	}
 	_ = gen.DontCare
 	/* ---------- (3) every request issued while browsing generated worlds ---------- */
-	nWorlds := c.Share(c.Pick(24, 400))
+	nWorlds := c.Share(c.Pick(48, 400))
 	base := total + 10
 	for i := 0; i < nWorlds; i++ {
 		n := base + i
